@@ -62,11 +62,13 @@ impl CounterCollection {
         let new_count = counter.count();
         let info = self.info_mut(counter.known_kind());
 
-        if let Some(old_count) = info.counts.first_mut() {
-            *old_count = new_count;
-        } else {
-            info.counts.push(new_count);
-        }
+        // Replace any existing counter of the same kind, including one that
+        // is computed from inputs. Otherwise its per-sample counts would be
+        // recorded after this constant and get attributed to the wrong
+        // samples.
+        info.count_input = None;
+        info.counts.clear();
+        info.counts.push(new_count);
     }
 
     pub(crate) fn push_counter(&mut self, counter: AnyCounter) {
